@@ -209,6 +209,19 @@ def h_history(ctx, which, n, k=1):
             ctx.require(ofn(d) == ref_crc(other, d, None), f'{other}: call sequence - every call equals the bitwise definition')
 
 
+def h_zero_register(ctx, which, zeros, k=1):
+    """inputs that drive the register to exactly 0 in the middle (crc32c: four 0xff bytes from the all-ones start; crc16: the
+    zero start itself), keep it there with zero bytes, and end in symbolic bytes: a register value of 0 is a value like any other"""
+    from pytoniq_core.crypto import crc as crcmod
+    head = (b'\xff' * 4 if which == 'crc32c' else b'') + bytes(zeros)
+    data = head + ctx.bytes_('tail', k)
+    fn = getattr(crcmod, which)
+    for o in ((None,) if which == 'crc16' else (None, 'big')):
+        out = fn(data) if o is None else fn(data, o)
+        ctx.require(out == ref_crc(which, data, o), f'{which}: inputs that drive the register through zero')
+    ctx.require(fn(head) == ref_crc(which, head, None), f'{which}: inputs that drive the register through zero')
+
+
 def h_vectors(ctx, which):
     """published check values (validates the oracle itself): CRC of b'123456789'"""
     from pytoniq_core.crypto import crc as crcmod
@@ -252,6 +265,9 @@ def instances(tier, seed):
     for which in ('crc16', 'crc32c'):
         for n in (1, 2, 34, 36, 64, 70):
             yield 'h_history', dict(which=which, n=n, k=1)
+        for zeros in (0, 1, 3, 4, 8, 60, 508):
+            yield 'h_zero_register', dict(which=which, zeros=zeros, k=1)
+        yield 'h_zero_register', dict(which=which, zeros=4, k=2 if which == 'crc16' else 1)
 
 
 def twins(tier, seed):
